@@ -985,6 +985,21 @@ class GenJumps(Gen):
             out += [{"k": "gosub", "label": rt}, self.trace("back again from " + rt)]
         return out + [{"k": "onerror", "mode": "zero"}, self.trace("after resume-label block")]
 
+    def gosub_in_loop_calls_exit_sub(self):
+        """A GOSUB made inside a FOR loop of the main module; its routine calls a SUB that leaves by EXIT SUB from a GOSUB routine
+        of its own, entered inside one of its FOR loops (other bounds); the RETURN of the main routine and the rest of the
+        main loop must not see anything of the callee's loop or GOSUB."""
+        r = self.rng
+        lab = self.new_label("Mq")
+        self.uses_gs = True
+        self.loop_id += 1
+        n = "N%d%%" % self.loop_id
+        self.subs.append((lab, [self.trace("in " + lab), {"k": "callsub", "name": "GsExitLoop", "args": []}, self.trace("after GsExitLoop"), {"k": "return"}]))
+        body = [self.trace("loop"), {"k": "gosub", "label": lab}, {"k": "print", "items": [("e", ("lit", "$", "back")), (";",), ("e", ("var", n))]}]
+        hi = r.choice([2, 3])
+        return [{"k": "for", "var": n, "lo": ("lit", "%", 1), "hi": ("lit", "%", hi), "step": r.choice([None, ("lit", "%", 1)]), "body": body, "next_var": True},
+                {"k": "print", "items": [("e", ("lit", "$", "counter")), (";",), ("e", ("var", n))]}]
+
     def sub_gosub(self):
         """GOSUB / RETURN inside SUBs: they are local to the call."""
         r = self.rng
@@ -1072,6 +1087,8 @@ class GenJumps(Gen):
                     main += self.resume_into_block()
                 elif r.random() < 0.4:
                     main += self.resume_label_from_calls()
+                elif r.random() < 0.4:
+                    main += self.gosub_in_loop_calls_exit_sub()
                 else:
                     main += self.sub_gosub()
             elif x < 0.55:
@@ -1121,6 +1138,11 @@ class GenJumps(Gen):
                           {"k": "label", "name": "GsL1"}, pr("GsLegal routine"), {"k": "return"}]},
                 {"k": "sub", "name": "GsReturn", "params": [], "static": r.random() < 0.3, "rtype": None,
                  "body": [pr("GsReturn in"), {"k": "return"}, pr("GsReturn after RETURN (only after RESUME NEXT)")]},
+                {"k": "sub", "name": "GsExitLoop", "params": [], "static": r.random() < 0.3, "rtype": None,
+                 "body": [pr("GsExitLoop in"),
+                          {"k": "for", "var": "GK%", "lo": ("lit", "%", 1), "hi": ("lit", "%", 5), "step": None, "next_var": False,
+                           "body": [{"k": "gosub", "label": "GsX1"}, pr("GsExitLoop after gosub (must not run)")]},
+                          {"k": "exit", "what": "SUB"}, {"k": "label", "name": "GsX1"}, pr("GsExitLoop routine"), {"k": "exit", "what": "SUB"}]},
                 {"k": "sub", "name": "GsExit", "params": [], "static": r.random() < 0.3, "rtype": None,
                  "body": [pr("GsExit in"), {"k": "gosub", "label": "GsE1"}, pr("GsExit after gosub (must not run)"), {"k": "exit", "what": "SUB"},
                           {"k": "label", "name": "GsE1"}, pr("GsExit routine"), {"k": "exit", "what": "SUB"}]},
